@@ -650,7 +650,21 @@ class Not(Query):
         else:
             query = self
 
-        return self.query.index.resultset_from_query(
+        queries = [self.query]
+        index = None
+
+        while queries:
+            # drill down until we find some query with an index attached
+            subq = queries.pop(0)
+            index = getattr(subq, 'index', None)
+            if index is not None:
+                break
+            queries.extend(list(subq.iter_children()))
+
+        if index is None:
+            raise ValueError('No query has a reference to an index')
+
+        return index.resultset_from_query(
             query,
             names=names,
             resolver=resolver
